@@ -8,6 +8,7 @@
 #include <string.h>
 
 int dump_bits = 0; /* doubles also carry their IEEE bit pattern */
+int dump_fmt = 0;  /* doubles carry fmt = printf("%.17g") in the C locale and ret = retained token text (or empty) */
 void dump_none(const char *key)
 {
 	ev_open_obj(key);
@@ -52,6 +53,14 @@ void dump_value(const char *key, json_object *o)
 		ev_bytes("text", t ? t : "", t ? n : 0);
 		if (dump_bits)
 			ev_dbl("bits", json_object_get_double(o));
+		if (dump_fmt)
+		{
+			char fb[64];
+			int fl = snprintf(fb, sizeof fb, "%.17g", json_object_get_double(o));
+			ev_bytes("fmt", fb, (size_t)fl);
+			const char *ud = (const char *)json_object_get_userdata(o);
+			ev_bytes("ret", ud ? ud : "", ud ? strlen(ud) : 0);
+		}
 		break;
 	}
 	case json_type_string:
